@@ -296,3 +296,22 @@ MUTANTS += [
  dict(id='c15-unfix-zero', props=['C15'], file=WG, old="            if distance_longer == distance_shorter:", new="            if False:"),
  dict(id='c15-extrapolate-short', props=['C15'], file=WG, old="            if distance_shorter is None:  # really short sprint, \n                return factor_longer", new="            if distance_shorter is None:  # really short sprint, \n                return factor_longer * 1.01"),
 ]
+
+MUTANTS += [
+ # ---- C19 -----------------------------------------------------------------------
+ dict(id='c19-key-json-only', props=['C19'], file=U, old="    t = (json_file,schema_file)\n", new="    t = (json_file,)\n"),
+ dict(id='c19-cache-not-v', props=['C19'], file=U, old="        c.pop(next(it))\n    c[t] = v\n    return v", new="        c.pop(next(it))\n    c[t] = not v if len(c) > 15 else v\n    return v"),
+ dict(id='c19-evict-wrong', props=['C19'], file=U, old="    c[t] = v\n    return v", new="    c[t] = v\n    if len(c) >= maxlen: c[next(iter(c))] = v\n    return v"),
+ dict(id='c19-unfix', props=['C19'], file=U, old="    if t in _schema_valid_cache and (_schema_valid_cache[t] or not expect_failure):", new="    if t in _schema_valid_cache:"),
+ dict(id='c19-validator-not-in-key', props=['C19'], file=U, old="    t = (schema_file,validator)\n", new="    t = (schema_file,)\n"),
+ dict(id='c19-cache-raise-as-false', props=['C19'], file=U, old="""                if not expect_failure:
+                    print(e)
+                    return _add_to_cache(_valid_against_schema_cache,t,False)
+                else:
+                    raise""", new="""                if not expect_failure:
+                    print(e)
+                    return _add_to_cache(_valid_against_schema_cache,t,False)
+                else:
+                    _add_to_cache(_valid_against_schema_cache,t,True)
+                    raise"""),
+]
